@@ -133,8 +133,13 @@ class SymInt(object):
     def __radd__(s, o): return s._b(o, ir.add, True)
     def __sub__(s, o): return s._b(o, ir.sub)
     def __rsub__(s, o): return s._b(o, ir.sub, True)
-    def __mul__(s, o): return s._b(o, ir.mul)
-    def __rmul__(s, o): return s._b(o, ir.mul, True)
+    def __mul__(s, o):
+        if type(o) is float and o == int(o) and abs(o) < 2 ** 53:
+            # int * integer-valued float constant: kept exact (see SymRat's rounding lemma)
+            from . import symfloat
+            return symfloat.SymRat(s * int(o), 1)
+        return s._b(o, ir.mul)
+    __rmul__ = lambda s, o: s.__mul__(o) if type(o) is float else s._b(o, ir.mul, True)
     def __and__(s, o): return s._b(o, ir.band)
     def __rand__(s, o): return s._b(o, ir.band, True)
     def __or__(s, o): return s._b(o, ir.bor)
